@@ -232,7 +232,7 @@ class SwitchCodeGenerator:
         if isinstance(field_type, IntegerType):
             if not case_value.isdigit():
                 raise RuntimeError(f'"{case_value}" is not a valid integer value.')
-            return case_value
+            return str(int(case_value))
 
         if isinstance(field_type, EnumType):
             ordinal_value = try_parse_int(case_value)
@@ -243,7 +243,7 @@ class SwitchCodeGenerator:
                         f'{field_type.name} value {case_value} '
                         + f'must be referred to by name ({enum_value.name})'
                     )
-                return case_value
+                return str(ordinal_value)
 
             enum_value = field_type.get_enum_value_by_name(case_value)
             if enum_value is None:
